@@ -404,6 +404,8 @@ class SymCtx:
                 self.engine.rules_used.add("filter-congruence")
             return BoolV(z3.And(fa["n"] == fb["n"], z3.ForAll([i], body)))
         out = veq(a, b)
+        if fb is None and isinstance(b, SeqV):
+            fb = b.meta.get("eq_filter")  # b is itself (element-wise) a filter by an assumed postcondition
         if fa is None and fb is not None and isinstance(a, SeqV) and a.meta.get("fresh_result"):
             # candidate: the fresh result of a call by contract is stated equal to a filter; the engine
             # keeps it only if this equality is a top-level conjunct of the assumed postcondition
